@@ -173,6 +173,7 @@ int main(int argc, char **argv) {
     {
         // run units in waves of nworkers single-unit processes
         R.one_unit_per_process = true;
+        A.has("out"); A.require_all_used();
         res = R.run(total, work, describe);
     }
     double wall = vr::now_s() - t0;
